@@ -69,6 +69,10 @@ var shapes = []shapeDef{
 	{"trailer-alone", []F{{"Trailer", "X-T"}}},
 	{"upgrade-requested", []F{{"Connection", "Upgrade"}, {"Upgrade", "foo"}}},
 	{"nominated-mixed-case", []F{{"Connection", "x-hOp , Keep-Alive"}, {"X-Hop", "h"}, {"Keep-Alive", "timeout=1"}, {"X-Hop2", "2"}}},
+	// the list syntax of Connection: optional whitespace around the commas is optional, empty elements are ignored, several lines are one list
+	{"nominated-no-space", []F{{"Connection", "X-Hop-A,X-Hop-B"}, {"X-Hop-A", "a"}, {"X-Hop-B", "b"}, {"X-Keep", "k"}}},
+	{"nominated-tab-and-empty-elements", []F{{"Connection", "X-Hop-A,\tX-Hop-B ,, X-Hop-C,"}, {"X-Hop-A", "a"}, {"X-Hop-B", "b"}, {"X-Hop-C", "c"}, {"X-Keep", "k"}}},
+	{"nominated-two-lines", []F{{"Connection", "X-Hop-A"}, {"X-Keep", "k"}, {"Connection", "X-Hop-B"}, {"X-Hop-A", "a"}, {"X-Hop-B", "b"}}},
 }
 
 // ruleSets: configured --header rules (C16 checks the rule semantics in isolation; here: that they are applied
